@@ -61,7 +61,9 @@ RateDebitPrice(used, cost)   == used * cost
 -----------------------------------------------------------------------------
 (* sessionChargingReservation: one usage entry.                            *)
 (* S = [st, mui, partial]; returns the same shape.                         *)
-CCEntry(S, u, us, trig) ==
+\* flt = "abmf": the account balance function cannot be reached while this request is served (dial fails): the entry is
+\* dropped from the answer at the point where the account request would have been sent; what was done before stays
+CCEntry(S, u, us, trig, flt) ==
   LET st   == S.st
       ue0  == st.ue[u]
       g    == us.rg
@@ -98,7 +100,12 @@ CCEntry(S, u, us, trig) ==
                                !.rtype = IF ab.fui THEN "debit" ELSE @]
         info  == [rg |-> g, granted |-> grant, fui |-> ab.fui,
                   trig |-> OfflineTrigs(us) \o (IF ab.fui THEN <<>> ELSE <<"QUOTA_THRESHOLD">>) \o <<"QUOTA_EXHAUSTED">>]
-    IN [st |-> [st EXCEPT !.ue[u] = [ue1 EXCEPT !.rg[g] = slot2], !.acct[k].quota = ab.quota],
+    IN IF need /\ flt = "abmf"
+         \* the reported usage has been taken off the reservation; no money moved, no answer for this rating group
+         THEN [st |-> [st EXCEPT !.ue[u] = [ue1 EXCEPT !.rg[g] = [slot1 EXCEPT !.reserved = r1, !.ucost = cost]]],
+               mui |-> S.mui, partial |-> part, panic |-> FALSE]
+       ELSE
+       [st |-> [st EXCEPT !.ue[u] = [ue1 EXCEPT !.rg[g] = slot2], !.acct[k].quota = ab.quota],
         mui |-> Append(S.mui, info), partial |-> part, panic |-> FALSE]
   ELSE \* debit mode
     LET price == RateDebitPrice(used, cost)
@@ -108,13 +115,19 @@ CCEntry(S, u, us, trig) ==
         slot2 == [slot1 EXCEPT !.reserved = 0, !.reqnum = @ + 1,
                                !.rtype = IF refund THEN "reserve" ELSE "debit"]
         info  == [rg |-> g, granted |-> 0, fui |-> FALSE, trig |-> OfflineTrigs(us) \o <<"QUOTA_EXHAUSTED">>]
-    IN [st |-> [st EXCEPT !.ue[u] = [ue1 EXCEPT !.rg[g] = slot2], !.acct[k].quota = q2],
+    IN IF flt = "abmf"
+         \* neither refund nor final debit happened: the reservation stays (a refund had already switched the mode back)
+         THEN [st |-> [st EXCEPT !.ue[u] = [ue1 EXCEPT !.rg[g] = [slot1 EXCEPT !.rtype = IF refund THEN "reserve" ELSE "debit"]]],
+               mui |-> S.mui, partial |-> part, panic |-> FALSE]
+       ELSE
+       [st |-> [st EXCEPT !.ue[u] = [ue1 EXCEPT !.rg[g] = slot2], !.acct[k].quota = q2],
         mui |-> Append(S.mui, info), partial |-> part, panic |-> FALSE]
 
-RECURSIVE CCFold(_, _, _, _, _)
-CCFold(S, u, usage, trig, i) ==
-  IF i > Len(usage) THEN S ELSE CCFold(CCEntry(S, u, usage[i], trig), u, usage, trig, i + 1)
-CC(st, u, usage, trig) == CCFold([st |-> st, mui |-> <<>>, partial |-> FALSE, panic |-> FALSE], u, usage, trig, 1)
+RECURSIVE CCFold(_, _, _, _, _, _)
+CCFold(S, u, usage, trig, flt, i) ==
+  IF i > Len(usage) THEN S ELSE CCFold(CCEntry(S, u, usage[i], trig, flt), u, usage, trig, flt, i + 1)
+CC(st, u, usage, trig, flt) == CCFold([st |-> st, mui |-> <<>>, partial |-> FALSE, panic |-> FALSE], u, usage, trig, flt, 1)
+FaultOf(a) == IF "fault" \in DOMAIN a THEN a.fault ELSE "none"
 
 -----------------------------------------------------------------------------
 (* Records *)
@@ -150,7 +163,7 @@ Update(st, a) ==
   IN
   IF ~found /\ ~DEV_CCBeforeLookup THEN [st |-> st, resp |-> [status |-> 404, ref |-> "", mui |-> <<>>]]
   ELSE
-  LET S     == CC(st, a.u, a.usage, a.trig)
+  LET S     == CC(st, a.u, a.usage, a.trig, FaultOf(a))
       ue1   == S.st.ue[a.u]
   IN
   IF S.panic THEN [st |-> S.st, resp |-> [status |-> 500, ref |-> "", mui |-> <<>>]]
@@ -180,7 +193,7 @@ Release(st, a) ==
   IN
   IF ~known /\ ~DEV_CCBeforeLookup THEN [st |-> st, resp |-> [status |-> 404, ref |-> "", mui |-> <<>>]]
   ELSE
-  LET S   == CC(st, a.u, a.usage, a.trig)
+  LET S   == CC(st, a.u, a.usage, a.trig, FaultOf(a))
       ue1 == S.st.ue[a.u]
   IN
   IF S.panic THEN [st |-> S.st, resp |-> [status |-> 500, ref |-> "", mui |-> <<>>]]
